@@ -497,6 +497,47 @@ theorem upgrade_induct (C : Crypto) (now : Nat) (P : State → Prop)
   · simp only [hz, Bool.false_eq_true, if_false] at hu
     exact upgradeLoop_induct C now P hstep ss _ _ st1 e1 (hop st op hp) hu
 
+/-- what the rotation loop of `upgrade` does to the registry: one epoch per set, registered hashes keep
+    their epoch, and every set of the list is well-formed, was unregistered before and is registered after -/
+theorem upgradeLoop_spec (C : Crypto) (now : Nat) (l : List WeightedSigners) (st : State) (e : List Ev)
+    (st1 : State) (e1 : List Ev) (hl : upgradeLoop C now st l e = .ok (st1, e1)) :
+    st1.epoch = st.epoch + l.length ∧
+    (∀ h, st.epochByHash h ≠ 0 → st1.epochByHash h = st.epochByHash h) ∧
+    (∀ ws ∈ l, wfSigners ws = true ∧ st.epochByHash (signersHash C ws) = 0 ∧
+        st1.epochByHash (signersHash C ws) ≠ 0) := by
+  induction l generalizing st e with
+  | nil =>
+    simp [upgradeLoop] at hl; obtain ⟨rfl, _⟩ := hl
+    exact ⟨by simp, fun _ _ => rfl, by simp⟩
+  | cons w l ih =>
+    unfold upgradeLoop at hl
+    cases hr : rotateSignersRaw C st now w false with
+    | error err => simp [hr] at hl
+    | ok v =>
+      obtain ⟨st2, e2⟩ := v
+      simp only [hr] at hl
+      obtain ⟨hwf, hnew, _, _, hst2, _⟩ := rotateSignersRaw_spec C st st2 now w false e2 hr
+      obtain ⟨i1, i2, i3⟩ := ih st2 _ hl
+      have h2e : st2.epoch = st.epoch + 1 := by rw [hst2]
+      have h2h : ∀ h, st2.epochByHash h = if h = signersHash C w then st.epoch + 1 else st.epochByHash h := by
+        intro h; rw [hst2]; simp only [upd]
+      refine ⟨by rw [i1, h2e]; simp only [List.length_cons]; omega, ?_, ?_⟩
+      · intro h hh
+        have hne : h ≠ signersHash C w := by intro hx; rw [hx] at hh; exact hh hnew
+        have e2h : st2.epochByHash h = st.epochByHash h := by rw [h2h]; simp [hne]
+        rw [i2 h (by rw [e2h]; exact hh), e2h]
+      · intro ws hws
+        rcases List.mem_cons.mp hws with rfl | hmem
+        · refine ⟨hwf, hnew, ?_⟩
+          have : st2.epochByHash (signersHash C ws) = st.epoch + 1 := by rw [h2h]; simp
+          rw [i2 _ (by rw [this]; omega), this]; omega
+        · obtain ⟨a, b, c⟩ := i3 ws hmem
+          refine ⟨a, ?_, c⟩
+          rw [h2h] at b
+          split at b
+          · omega
+          · exact b
+
 theorem upgrade_messages (C : Crypto) (now : Nat) (st : State) (op : Bytes) (ss : List WeightedSigners)
     (st1 : State) (e1 : List Ev) (hu : upgrade C st now op ss = .ok (st1, e1)) :
     st1.messages = st.messages :=
